@@ -358,6 +358,42 @@ def run_check(prop, tier, seed, replay=None):
     return 1 if nviol else 0
 
 
+def setup():
+    """ MANIFEST.setup_cmd: regenerate Generated/*.lean, build every claimed property's Lean modules """
+    from harness import extract
+    res = extract.run_all(REPO, os.path.join(LEAN, PKG, 'Generated'))
+    bad = {k: v['error'] for k, v in res.items() if not v['ok']}
+    if bad:
+        print('extractors failing (reported by the checks that depend on them):', bad)
+    man = json.load(open(os.path.join(VERIF, 'MANIFEST.json')))
+    targets = []
+    for c in man['checks']:
+        pid = c['property_id']
+        targets.append(f'{PKG}.Props.{pid}')
+        try:
+            mod = importlib.import_module(f'harness.props.{pid.lower()}')
+            targets += list(getattr(mod, 'DRIVER_MODULES', []))
+        except Exception as e:
+            print(f'cannot import harness.props.{pid.lower()}: {e}')
+    targets = sorted(set(targets))
+    lock = open(os.path.join(LEAN, '.verif.lock'), 'w')
+    fcntl.flock(lock, fcntl.LOCK_EX)
+    rc, out, err = sh(['lake', 'build'] + targets, cwd=LEAN, timeout=7200)
+    if rc != 0:
+        print('lake build of all targets failed; building one by one')
+        for t in targets:
+            rc1, o1, e1 = sh(['lake', 'build', t], cwd=LEAN, timeout=7200)
+            print(f'  {t}: rc={rc1}')
+    print(f'setup: built {len(targets)} Lean targets (rc={rc})')
+    # warm numba's cache / import starsim once
+    try:
+        import starsim as ss
+        ss.Sim(n_agents=50, dur=2, diseases='sis', networks='random', verbose=0).run()
+    except Exception as e:
+        print('warm-up sim failed:', e)
+    return 0
+
+
 def main(argv):
     ap = argparse.ArgumentParser()
     ap.add_argument('prop')
@@ -366,11 +402,7 @@ def main(argv):
     a = ap.parse_args(argv)
     seed = int(os.environ.get('VERIF_SEED', '0') or 0)
     if a.prop == 'setup':
-        from harness import extract
-        extract.run_all(REPO, os.path.join(LEAN, PKG, 'Generated'))
-        rc, out, err = sh(['lake', 'build'], cwd=LEAN, timeout=7200)
-        sys.stdout.write(out[-3000:]); sys.stderr.write(err[-3000:])
-        return rc
+        return setup()
     try:
         return run_check(a.prop.upper(), a.tier, seed, a.replay)
     except Infra as e:
